@@ -49,11 +49,15 @@ static struct set *g_cb_set;
 static int g_cb_mode;                   // 0 = no question, 1 = inside set_remove, 2 = inside set_clear
 static int g_cb_member_seen;
 
+static int g_scrub_cmp = -1;            // comparator of the running case (for the scrubbing below)
 static void elem_cleanup(void *data) {
     Elem *e = (Elem *)data;
     g_cleanups[e->id]++;
     if (g_cb_mode && g_cb_set && set_find(g_cb_set, data) != NULL)
         g_cb_member_seen = e->id;
+    // a cleanup may do what it likes with the element it is given: scrub the key (it then reads as another valid key)
+    if (g_scrub_cmp == CMP_INT) e->k.i = 0;
+    else if (g_scrub_cmp == CMP_CHARP) e->k.s = "";
 }
 
 // key universe per comparator; model order = intended mathematical order
@@ -113,7 +117,12 @@ struct Harness {
         st.compare = u.cmp == CMP_INT ? set_compare_int : u.cmp == CMP_CHARP ? set_compare_charp
                    : u.cmp == CMP_VOIDP ? set_compare_voidp : set_compare_ptr;
         st.cleanup = elem_cleanup;
+        g_scrub_cmp = u.cmp;
         g_cleanups.clear(); g_inset.clear(); g_fail.clear();
+        // a NULL set is an empty set for find, lower bound, remove and clear (set_first / set_size take a real set)
+        set_clear(NULL, 0); set_clear(NULL, 1);
+        if (set_find(NULL, &probe) || set_lower(NULL, &probe) || set_remove(NULL, &probe, 0))
+            g_fail = "an entry point treats a NULL set as non-empty";
     }
     ~Harness() {
         // free whatever is still allocated without going through the SUT
@@ -191,7 +200,10 @@ struct Harness {
         case 1: {
             int old = model.count(r) ? model[r] : 0;
             g_cb_set = &st; g_cb_mode = 1; g_cb_member_seen = 0;
-            int res = set_remove(&st, (void *)datum(op.key), op.flag);
+            // the datum may be a separate probe or - as module.c and iauth_core.c do - the stored element itself
+            void *dat = (void *)datum(op.key);
+            if (old && u.cmp != CMP_PTR && (op.key % 2) == 0 && nodes.count(old)) dat = set_node_data(nodes[old]);
+            int res = set_remove(&st, dat, op.flag);
             g_cb_mode = 0;
             if (g_cb_member_seen) { std::ostringstream o; o << "cleanup of element #" << g_cb_member_seen << " ran inside set_remove while set_find still reported its key as a member"; fail(o.str()); }
             if ((res != 0) != (old != 0)) { fail(std::string("remove returned ") + std::to_string(res) + " for a key that is " + (old ? "present" : "absent")); }
@@ -365,7 +377,7 @@ static Universe make_universe(Cmp cmp, const std::vector<int> &raw) {
                                   // ASCII case folding only: [ \\ ] ^ are not the upper-case forms of { | } ~
                                   "chan[1]", "chan{1}", "a\\b", "a|b", "x^", "x~", "x]", "x}", "`", "@", "[", "{",
                                   // bytes above 0x7f compare as unsigned characters (strcasecmp in the C locale)
-                                  "\xc3\xa9clair", "na\xefve", "nab", "\xff", "z\x80", "zz", "\x80"};
+                                  "\xc3\xa9" "clair", "na\xef" "ve", "nab", "\xff", "z\x80", "zz", "\x80"};
     std::set<long long> seen;
     for (int r : raw) {
         switch (cmp) {
